@@ -1,66 +1,125 @@
 import Sigc.Model
-import Sigc.Lemmas.Basic
-import Sigc.Lemmas.Frames
+import Sigc.Spec
+import Sigc.Lemmas.InvTracks3
+import Sigc.Lemmas.InvExamples
 /-!
 # C02 — destroying a trackable invalidates and disconnects every slot that refers to it
-(first theorems; the all-history invariants are being proved in Sigc/Lemmas/Inv*.lean)
+
+Model-level content (mechanism model `P`): a functor refers to trackable objects by identity
+(`Fun.tracks`, nested functors included); `invalidateTrackable s o` is `trackable::notify_callbacks()`
+of object `o` restricted to the registrations made by slot reps.
+
+* `tracks_live*` — in every reachable state (and at every operation boundary inside emissions) every
+  object any rep refers to is alive: the object of a live trackable name, the `trackable` base of a live
+  `trackable_signal` handle, or an object kept alive by an owning functor.  So the library never holds
+  a registration in — and never reads or writes — a destroyed object.
+* `invalidates_all` — after `notify_callbacks()` of `o` no rep refers to `o`; every user slot that
+  referred to it is empty (invalidated, functor released); every cell that referred to it is erased or
+  invalid, unlinked and without functor; every connection to such a cell reports `connected() = false`.
+* `delT_invalidates_all` — the same for the operation `delT` (destruction of a trackable), and the
+  object is no longer reachable under that name.
 -/
 namespace Sigc.C02
-open Sigc.Model
+open Sigc.Model Sigc.Inv
 
-/-- an invalidated slot is empty, refers to no trackable any more and holds no functor copy -/
-theorem invalidate_slot (sl : SlotB) (t fid : Nat) :
-    sl.invalidate.tracksObj t = false ∧ sl.invalidate.live fid = 0 ∧
-    (sl.rep.isSome → sl.invalidate.empty = true) := by
-  unfold SlotB.invalidate
-  cases hr : sl.rep <;> simp [SlotB.tracksObj, SlotB.live, SlotB.empty, hr]
+/-- the objects a slot refers to: `tracksObj` is membership in `Fun.tracks` of the rep's functor -/
+theorem tracksObj_iff (sl : SlotB) (o : Nat) :
+    sl.tracksObj o = true ↔ ∃ r f, sl.rep = some r ∧ r.fn = some f ∧ o ∈ f.tracks := by
+  unfold SlotB.tracksObj
+  cases h : sl.rep with
+  | none => simp
+  | some r =>
+    obtain ⟨c, f⟩ := r
+    cases f with
+    | none => simp
+    | some f => simp
 
-/-- after `trackable::notify_callbacks()` of object `t` (destruction, assignment, move, explicit
-    notify), no slot variable refers to `t`, in any state, for any number of slot variables,
-    copies and nestings -/
-theorem invalidateTrackable_user_slots (s : St) (t : Nat) :
-    ∀ i v, aget (invalidateTrackable s t).S i = some v → v.slot.tracksObj t = false := by
-  intro i v h
-  unfold invalidateTrackable at h
-  simp only [foldl_invalidateCell_S] at h
-  rw [aget_amap] at h
-  cases hv : aget s.S i with
-  | none => simp [hv] at h
-  | some v0 =>
-    simp [hv] at h
-    subst h
-    by_cases ht : v0.slot.tracksObj t = true
-    · simp [ht]
-      exact (invalidate_slot v0.slot t 0).1
-    · simpa [ht] using ht
+/-- what "every tracked object is alive" means for a state -/
+def TracksLive (s : St) : Prop :=
+  (∀ k v o, aget s.S k = some v → v.slot.tracksObj o = true → LiveObj s.T s.G s.ownedT o) ∧
+  (∀ i im c o, aget s.impls i = some im → c ∈ im.cells → c.slot.tracksObj o = true →
+      LiveObj s.T s.G s.ownedT o)
 
-/-- a slot variable that referred to `t` and had a representation is empty afterwards -/
-theorem invalidateTrackable_empties (s : St) (t i : Nat) (v0 : SlotVar) (h0 : aget s.S i = some v0)
-    (ht : v0.slot.tracksObj t = true) :
-    ∃ v, aget (invalidateTrackable s t).S i = some v ∧ v.slot.empty = true ∧ v.slot.liveAll = 0 := by
-  unfold invalidateTrackable
-  simp only [foldl_invalidateCell_S]
-  rw [aget_amap, h0]
-  refine ⟨_, rfl, ?_, ?_⟩
-  · simp only [ht, if_true]
-    unfold SlotB.tracksObj at ht
-    cases hr : v0.slot.rep with
-    | none => simp [hr] at ht
-    | some r => simp [SlotB.invalidate, SlotB.empty, hr]
-  · simp only [ht, if_true]
-    cases hr : v0.slot.rep <;> simp [SlotB.invalidate, SlotB.liveAll, hr]
+/-- **every terminating run of every program**: every object referred to by the functor of any user slot
+    or any connected slot (directly or through a nested slot) is alive -/
+theorem tracks_live (fuel : Nat) (P : Prog) (s : St) (h : runTop fuel P {} P.top = some s) : TracksLive s := by
+  obtain ⟨_, htl⟩ := WTL.reachable fuel P s h
+  exact ⟨fun k v o hk ho => TrackedIn.getS htl hk o ho,
+         fun i im c o hi hc ho => TrackedIn.getI htl hi c hc o ho⟩
 
-/-- slot variables that do not refer to `t` are untouched -/
-theorem invalidateTrackable_others (s : St) (t i : Nat) (v0 : SlotVar) (h0 : aget s.S i = some v0)
-    (ht : v0.slot.tracksObj t = false) :
-    aget (invalidateTrackable s t).S i = some v0 := by
-  unfold invalidateTrackable
-  simp only [foldl_invalidateCell_S]
-  rw [aget_amap, h0]
-  simp [ht]
+/-- … at every operation boundary, inside or outside an emission, at any nesting depth -/
+theorem tracks_live_op (fuel : Nat) (P : Prog) (s : St) (op : Op) (r : St × Except Unit String)
+    (hs : WTL s) (h : execOp fuel P s op = some r) : WTL r.1 :=
+  WTL.stable.execOp hs h
 
-example : (invalidateTrackable { S := [(0, { isVoid := false, slot := { rep := some { call := true, fn := some (.leaf 1 [7]) } } })] } 7).S
-    = [(0, { isVoid := false, slot := { rep := some { call := false, fn := none } } })] := by
-  simp [invalidateTrackable, amap, SlotB.tracksObj, Fun.tracks, SlotB.invalidate]
+theorem tracks_live_emit (fuel : Nat) (P : Prog) (s : St) (fl : Flavour) (impl : Option Nat) (arg : Nat)
+    (strat : Strat) (r : St × Outcome × Nat) (hs : WTL s) (h : emitImpl fuel P s fl impl arg strat = some r) :
+    WTL r.1 :=
+  WTL.stable.emitImpl hs h
+
+theorem tracks_live_invoke (fuel : Nat) (P : Prog) (s : St) (fn : Fun) (arg : Nat) (r : St × Outcome × Nat)
+    (hs : WTL s) (h : invokeFun fuel P s fn arg = some r) : WTL r.1 :=
+  WTL.stable.invokeFun hs h
+
+/-- … and after the harness teardown -/
+theorem tracks_live_teardown (fuel fuel' : Nat) (P : Prog) (s s' : St)
+    (h : runTop fuel P {} P.top = some s) (ht : teardown fuel' P s = some s') : WTL s' :=
+  WTL.stable.teardown fuel' P s s' (WTL.reachable fuel P s h) ht
+
+/-- **`notify_callbacks()` reaches every rep that refers to the object** (any well-formed, hence any
+    reachable, state; any object):
+    1. afterwards no user slot and no cell refers to `o`;
+    2. every user slot that referred to `o` is now invalidated: `empty()`, functor released;
+    3. every cell that referred to `o` is erased, or invalid, unlinked and without functor
+       (its erase is deferred to the sweep of the running emission);
+    4. every connection to such a cell reports `connected() = false`;
+    nothing else about trackables, handles or user slots that did not refer to `o` changes -/
+theorem invalidates_all {s : St} (hw : WF s) (o : Nat) :
+    NoTrack o (invalidateTrackable s o) ∧
+    (∀ k v, aget s.S k = some v → v.slot.tracksObj o = true →
+        aget (invalidateTrackable s o).S k = some { v with slot := v.slot.invalidate } ∧
+        v.slot.invalidate.empty = true ∧ v.slot.invalidate.liveAll = 0) ∧
+    (∀ i im c, aget s.impls i = some im → c ∈ im.cells → c.slot.tracksObj o = true →
+        Gone c.id (invalidateTrackable s o) ∧ connConnected (invalidateTrackable s o) (some c.id) = false) ∧
+    (∀ k v, aget s.S k = some v → v.slot.tracksObj o = false → aget (invalidateTrackable s o).S k = some v) ∧
+    (invalidateTrackable s o).T = s.T ∧ (invalidateTrackable s o).G = s.G := by
+  obtain ⟨fT, fG, _, _, fS⟩ := invalidateTrackable_frame s o
+  refine ⟨invalidateTrackable_notrack hw o, ?_, ?_, ?_, fT, fG⟩
+  · intro k v hk ht
+    refine ⟨?_, ?_, ?_⟩
+    · rw [fS, aget_amap, hk]; simp [ht]
+    · simp only [SlotB.invalidate, SlotB.empty]; cases h : v.slot.rep <;> simp
+      have := (tracksObj_iff v.slot o).1 ht
+      obtain ⟨r, f, hr, _, _⟩ := this
+      rw [h] at hr; cases hr
+    · simp only [SlotB.invalidate, SlotB.liveAll]; cases h : v.slot.rep <;> simp [h]
+  · intro i im c hi hc ht
+    have hg := invalidateTrackable_gone hw hi hc ht
+    exact ⟨hg, not_connected_of_gone hg⟩
+  · intro k v hk ht
+    rw [fS, aget_amap, hk]; simp [ht]
+
+/-- the operation `delT t` (destruction of the trackable named `t`, object `o`): the name is gone and the
+    cascade of `invalidates_all` has run -/
+theorem delT_invalidates_all {s s' : St} {r : String} (hw : WF s) (t o : Nat) (ht : aget s.T t = some o)
+    (h : stepSimple s (.delT t) = some (s', r)) :
+    aget s'.T t = none ∧ NoTrack o s' ∧
+    (∀ k v, aget s.S k = some v → v.slot.tracksObj o = true →
+        aget s'.S k = some { v with slot := v.slot.invalidate }) ∧
+    (∀ i im c, aget s.impls i = some im → c ∈ im.cells → c.slot.tracksObj o = true →
+        Gone c.id s' ∧ connConnected s' (some c.id) = false) := by
+  simp only [stepSimple, ht, Option.some.injEq, Prod.mk.injEq] at h
+  obtain ⟨rfl, _⟩ := h
+  have hw0 : WF { s with T := adel s.T t } := hw
+  obtain ⟨h1, h2, h3, _, h5, _⟩ := invalidates_all hw0 o
+  refine ⟨by rw [h5]; simp, h1, fun k v hk hv => (h2 k v hk hv).1, h3⟩
+
+/-! ### examples -/
+
+/-- on the example state `Sigc.Inv.exT`: a user slot and a connected cell both bound to object 7 -/
+example : NoTrack 7 (invalidateTrackable exT 7) := (invalidates_all exT_wf 7).1
+
+example : connConnected (invalidateTrackable exT 7) (some 4) = false :=
+  ((invalidates_all exT_wf 7).2.2.1 3 _ _ (by simp [exT, aget]; rfl) (List.mem_cons_self) (by decide)).2
 
 end Sigc.C02
